@@ -504,6 +504,44 @@ def _isinstance_of(test, var: str) -> list[str] | None:
     return None
 
 
+
+def check_double_precision_state(rep: Report, ix) -> None:
+    """the cursor `_t_next` is advanced in place by `dt` (`+= self.dt`): with a NumPy scalar narrower than double (np.float32)
+    as `dt` or `t_start` the in-place arithmetic stays in that type under NumPy 2, answers repeat or lie before the time asked and
+    leave the lattice.  Rule: the constructors of the lattice-based interrupt classes store `dt`, `t_start`, `scale`, `factor`
+    converted with float(...) (None passed through), so that all cursor arithmetic is double precision python floats."""
+    n = 0
+    for qn, attrs in (("ConstantInterrupts.__init__", ("dt", "t_start")), ("GeometricInterrupts.__init__", ("scale", "factor"))):
+        f = ix.func(INT, qn)
+        rep.saw("functions", f.ref)
+        for a in attrs:
+            stores = [st for st in ast.walk(f.node) if isinstance(st, (ast.Assign, ast.AnnAssign)) and any(isinstance(t, ast.Attribute) and t.attr == a and isinstance(t.value, ast.Name) and t.value.id == "self" for t in ([st.target] if isinstance(st, ast.AnnAssign) else st.targets))]
+            if not stores:
+                continue
+            n += 1
+            v = stores[-1].value
+
+            def is_float_cast(e) -> bool:
+                if isinstance(e, ast.Call) and dotted(e.func) == "float" and len(e.args) == 1:
+                    return True
+                if isinstance(e, ast.IfExp):
+                    branches = [e.body, e.orelse]
+                    return all(is_float_cast(b) or (isinstance(b, ast.Constant) and b.value is None) for b in branches) and any(is_float_cast(b) for b in branches)
+                return False
+
+            ok = is_float_cast(v)
+            rep.oblige(f"{qn}: self.{a} is stored as a python float", ok, ast.unparse(v))
+            if not ok:
+                rep.violation(
+                    "C09.double-precision",
+                    f"{f.ref}::{a}",
+                    f"`self.{a} = {ast.unparse(v)}` keeps whatever number type the caller passed: a single-precision NumPy scalar drags the cursor arithmetic (`_t_next += self.dt`) into float32, "
+                    "so answers are repeated, lie before the time asked about and drift off the lattice t_start + k*dt",
+                    line=stores[-1].lineno,
+                )
+    rep.floor("schedule parameters stored by the interrupt constructors", n, 3)
+
+
 def check(tier: str) -> Report:
     rep = Report("C09", tier, "other", "static: CFG + reaching definitions + sign/integer-valued/ordering-fact domains over the cursor updates")
     rep.explanation = (
@@ -527,6 +565,7 @@ def check(tier: str) -> Report:
     check_geometric(rep, ix)
     check_logarithmic(rep, ix)
     check_parse(rep, ix)
+    check_double_precision_state(rep, ix)
     rep.assumptions += [
         "dt > 0, factor > 1 (geometric) resp. factor >= 1 (logarithmic), the fixed list is increasing (documented preconditions)",
         "queries are non-decreasing and initialize() precedes next()",
